@@ -15,6 +15,11 @@ replayer compares
 * after every step on one world the concrete projection of the OTHER world with its projection before the
   step (NoSharingStep).
 
+A world's object lives either in this process or - after Pickle("session") - in ANOTHER interpreter with
+another string-hash seed (c20_child.py), where it was restored from the pickle file and where every later action
+on it is performed through the same adapter (Remote); behaviours with several Pickles (generations) move the
+restored object to the place of the original and restore a new copy from it.
+
 Python only transports values; what is expected comes from the TLC state.
 """
 from __future__ import annotations
@@ -31,7 +36,7 @@ import numpy as np
 
 from . import c20_catalog as cat
 
-HDF_LAST_ENTRY_IS_A_CLAUSE = False   # see Replayer.observe_hdf_last
+HDF_LAST_ENTRY_IS_A_CLAUSE = True   # finding D2003 (it was an observation before it was triaged)
 KIND_OF = {"NoneType": "none", "SimpleCache": "simple", "MemoryFullCache": "mem", "HDF5Cache": "hdf"}
 
 
@@ -108,6 +113,7 @@ class Child:
     def __init__(self, hash_seed=None):
         self.p = None
         self.hash_seed = hash_seed
+        self.used = False
 
     def start(self):
         env = dict(os.environ)
@@ -120,9 +126,12 @@ class Child:
                                   stdout=subprocess.PIPE, stderr=subprocess.DEVNULL, cwd=verif, env=env)
 
     def roundtrip(self, blob: bytes, probe=None):
+        return self.request({"blob": blob, "probe": probe})
+
+    def request(self, msg: dict):
         if self.p is None or self.p.poll() is not None:
             self.start()
-        req = pickle.dumps({"blob": blob, "probe": probe})
+        req = pickle.dumps(msg)
         self.p.stdin.write(struct.pack("<Q", len(req)) + req)
         self.p.stdin.flush()
         head = self.p.stdout.read(8)
@@ -155,16 +164,48 @@ class Children:
         self.children = [Child(s) for s in self.SEEDS]
         self.n = 0
 
+    def pick(self, avoid=None):
+        """The next interpreter of the rotation (not `avoid`: a session restores in ANOTHER interpreter)."""
+        while True:
+            c = self.children[self.n % len(self.children)]
+            self.n += 1
+            if c is not avoid:
+                return c
+
     def roundtrip(self, blob, probe=None):
-        c = self.children[self.n % len(self.children)]
-        self.n += 1
+        c = self.pick()
         ans = c.roundtrip(blob, probe)
         ans["hash_seed"] = c.hash_seed
         return ans
 
+    def reset(self):
+        for c in self.children:
+            if c.used:
+                c.used = False
+                try:
+                    c.request({"op": "reset"})
+                except Exception:  # noqa: BLE001
+                    c.close()
+
     def close(self):
         for c in self.children:
             c.close()
+
+
+class Remote:
+    """An object that lives in another interpreter: the adapter's methods are applied to it there."""
+
+    n_handles = 0
+
+    def __init__(self, child, cls_name):
+        Remote.n_handles += 1
+        self.child = child
+        self.handle = Remote.n_handles
+        self.cls_name = cls_name
+        child.used = True
+
+    def call(self, method, *args):
+        return self.child.request({"op": "call", "handle": self.handle, "method": method, "args": args})["result"]
 
 
 class ChildError(Exception):
@@ -195,7 +236,27 @@ class DiscAdapter:
         if self.e.pname is not None:
             # DV[0]: the constructor's default (installed here for the classes that come without one)
             self.set_default(obj, 0)
+        self.bind_rest(obj)
         return obj
+
+    def gram(self, obj):
+        """The grammar the abstract edits act on."""
+        return obj.io.input_grammar
+
+    def bind_rest(self, obj):
+        """The OTHER defaults the constructor gives (cell gram.rest): their names, and the values the caller
+        supplies for them once the grammar no longer holds them (the caller always supplies x itself)."""
+        if getattr(self.e, "rest_names", None) is None:
+            dfl = self.gram(obj).defaults
+            self.e.rest_names = [n for n in dfl if n != self.e.pname]
+            self.e.rest = {n: frozen(dfl[n]) for n in self.e.rest_names if n != self.e.xname}
+
+    def binding(self):
+        """What another interpreter needs to act on a restored object of this entry (transported, not recomputed)."""
+        e = self.e
+        return {"entry": e.name, "grammar": self.gt, "work": None if self.work is None else str(self.work),
+                "binding": {"xname": e.xname, "pname": e.pname, "xvals": e.xvals, "pvals": e.pvals,
+                            "rest_names": getattr(e, "rest_names", None), "rest": getattr(e, "rest", None)}}
 
     def file_path(self, f):
         return self.work / f"c20_file{f}.h5"
@@ -206,19 +267,37 @@ class DiscAdapter:
         return obj
 
     # -- the operations of the specification
-    def inputs(self, x):
-        return {self.e.xname: np.array(self.e.xvals[x - 1])}
+    def inputs(self, x, rest=False):
+        """x from the caller; with `rest`, also the other inputs the grammar holds no default for any more."""
+        data = {self.e.xname: np.array(self.e.xvals[x - 1])}
+        if rest:
+            data.update({n: np.array(v) for n, v in (getattr(self.e, "rest", None) or {}).items()})
+        return data
 
-    def execute(self, obj, x):
-        data = obj.execute(self.inputs(x))
+    def execute(self, obj, x, rest=False):
+        data = obj.execute(self.inputs(x, rest))
         return {n: frozen(data[n]) for n in obj.io.output_grammar.names}
 
-    def linearize(self, obj, x):
-        jac = obj.linearize(self.inputs(x), **self.linearize_kw)
+    def linearize(self, obj, x, rest=False):
+        jac = obj.linearize(self.inputs(x, rest), **self.linearize_kw)
         return {o: {i: frozen(m) for i, m in row.items()} for o, row in jac.items()}
 
     def set_default(self, obj, v):
-        obj.io.input_grammar.defaults[self.e.pname] = np.array(self.e.pvals[v])
+        self.gram(obj).defaults[self.e.pname] = np.array(self.e.pvals[v])
+
+    def del_default(self, obj):
+        del self.gram(obj).defaults[self.e.pname]
+
+    def clear_defaults(self, obj, how):
+        if how == "clear":
+            self.gram(obj).defaults.clear()
+        elif how == "assign":
+            self.gram(obj).defaults = {}
+        else:
+            raise ValueError(how)
+
+    def unrequire(self, obj):
+        self.gram(obj).required_names.remove(self.e.pname)
 
     def set_setting(self, obj, v):
         obj.validate_output_data = not bool(v)
@@ -283,12 +362,19 @@ class DiscAdapter:
              "len": 0 if c is None else len(c),
              "ne": st.n_executions, "nl": st.n_linearizations,
              "sett": 0 if obj.validate_output_data else 1}
-        if self.e.pname is not None:
-            d = obj.io.input_grammar.defaults.get(self.e.pname)
-            a["dflt"] = next((v for v, val in enumerate(self.e.pvals) if d is not None and same(d, val)), -1)
-        else:
-            a["dflt"] = 0
+        a.update(self.abstract_gram(obj))
         return a
+
+    def abstract_gram(self, obj):
+        """The grammar cell: default of p (has, which), p required, the other constructor defaults present."""
+        if self.e.pname is None:
+            return {"dflt": 0, "has": None, "req": None, "rest": None}
+        g = self.gram(obj)
+        d = g.defaults.get(self.e.pname)
+        names = getattr(self.e, "rest_names", None)
+        return {"dflt": next((v for v, val in enumerate(self.e.pvals) if d is not None and same(d, val)), -1),
+                "has": self.e.pname in g.defaults, "req": self.e.pname in g.required_names,
+                "rest": all(n in g.defaults for n in names) if names else None}
 
     def point_of(self, data):
         xi = next((i + 1 for i, val in enumerate(self.e.xvals) if self.e.xname in data and same(data[self.e.xname], val)), -1)
@@ -424,8 +510,13 @@ class PlainAdapter(DiscAdapter):
     """Objects that are not disciplines: the same abstract operations, bound to their own API.  Items of the
     abstract projection the object does not have (no cache, no counters) are None = not observed."""
 
+    banned = ("DelDefault", "ClearDefaults", "Unrequire")   # no grammar to edit
+
     def fresh(self):
         return self.e.make()
+
+    def bind_rest(self, obj):
+        pass
 
     def build(self, kind, f=1):
         return self.fresh()
@@ -446,10 +537,10 @@ class PlainAdapter(DiscAdapter):
 class FunctionAdapter(PlainAdapter):
     """MDOFunction and the function algebra: evaluate / jac; no cache, no counters, no defaults."""
 
-    def execute(self, obj, x):
+    def execute(self, obj, x, rest=False):
         return {"value": frozen(obj.evaluate(self.x(x)))}
 
-    def linearize(self, obj, x):
+    def linearize(self, obj, x, rest=False):
         return {"jac": frozen(obj.jac(self.x(x)))}
 
     def set_setting(self, obj, v):
@@ -457,7 +548,7 @@ class FunctionAdapter(PlainAdapter):
 
     def abstract(self, obj):
         return {"kind": "none", "last": None, "nout": 0, "njac": 0, "len": None, "ne": None, "nl": None, "dflt": 0,
-                "sett": 1 if obj.force_real else 0}
+                "has": None, "req": None, "rest": None, "sett": 1 if obj.force_real else 0}
 
     def concrete(self, obj, with_cache=True):
         return {"gram": {"input_names": list(obj.input_names), "output_names": list(obj.output_names), "dim": obj.dim},
@@ -470,7 +561,7 @@ class SpaceAdapter(PlainAdapter):
     """DesignSpace: the 'default' is the current value; the observable 'execution' is the normalisation of a
     vector together with the views of the space."""
 
-    def execute(self, obj, x):
+    def execute(self, obj, x, rest=False):
         v = self.x(x)
         return {"normalized": frozen(obj.normalize_vect(v)), "unnormalized": frozen(obj.unnormalize_vect(obj.normalize_vect(v))),
                 "current": frozen(obj.get_current_value()), "current_n": frozen(obj.get_current_value(normalize=True)),
@@ -491,7 +582,7 @@ class SpaceAdapter(PlainAdapter):
         cur = obj.get_current_value()
         return {"kind": "none", "last": None, "nout": 0, "njac": 0, "len": None, "ne": None, "nl": None,
                 "dflt": next((i for i, val in enumerate(self.e.pvals) if same(cur, val)), -1),
-                "sett": 1 if obj.name == "space1" else 0}
+                "has": None, "req": None, "rest": None, "sett": 1 if obj.name == "space1" else 0}
 
     def concrete(self, obj, with_cache=True):
         names = list(obj.variable_names)
@@ -506,11 +597,11 @@ class ProblemAdapter(PlainAdapter):
     """OptimizationProblem after preprocess_functions(): the database is its (keep-everything) cache, the
     n_calls of its functions its counters (they count calls, served from the database or not)."""
 
-    def execute(self, obj, x):
+    def execute(self, obj, x, rest=False):
         out, _ = obj.evaluate_functions(design_vector=self.x(x), design_vector_is_normalized=False)
         return {k: frozen(v) for k, v in out.items()}
 
-    def linearize(self, obj, x):
+    def linearize(self, obj, x, rest=False):
         _, jac = obj.evaluate_functions(design_vector=self.x(x), design_vector_is_normalized=False,
                                         jacobian_functions=())
         return {k: frozen(v) for k, v in jac.items()}
@@ -532,7 +623,7 @@ class ProblemAdapter(PlainAdapter):
         items = list(db.items())
         return {"kind": "mem", "last": None, "nout": sum(1 for _, o in items if f in o), "njac": sum(1 for _, o in items if "@" + f in o),
                 "len": len(db), "ne": obj.objective.n_calls, "nl": None, "dflt": 0,
-                "sett": 1 if obj.differentiation_step == 2e-7 else 0}
+                "has": None, "req": None, "rest": None, "sett": 1 if obj.differentiation_step == 2e-7 else 0}
 
     def concrete(self, obj, with_cache=True):
         db = obj.database
@@ -556,19 +647,19 @@ class ScenarioAdapter(PlainAdapter):
     SETTINGS = {"DOEScenario": [{"algo_name": "PYDOE_FULLFACT", "n_samples": 4}, {"algo_name": "PYDOE_FULLFACT", "n_samples": 9}],
                 "MDOScenario": [{"algo_name": "SLSQP", "max_iter": 30}, {"algo_name": "L-BFGS-B", "max_iter": 30}]}
 
-    def execute(self, obj, x):
+    def execute(self, obj, x, rest=False):
         obj.execute(**self.SETTINGS[self.e.name][x - 1])
         res = obj.optimization_result
         pb = obj.formulation.optimization_problem
         return {"x_opt": frozen(res.x_opt), "f_opt": frozen(res.f_opt), "n_database": len(pb.database),
                 "current": frozen(pb.design_space.get_current_value())}
 
-    banned = ("SetSetting",)   # no behaviour-neutral public setting to toggle
+    banned = ("SetSetting", "DelDefault", "ClearDefaults", "Unrequire")   # no behaviour-neutral public setting to toggle
 
     def abstract(self, obj):
         st = obj.execution_statistics
         return {"kind": "none", "last": None, "nout": 0, "njac": 0, "len": None, "ne": st.n_executions, "nl": None,
-                "dflt": 0, "sett": None}
+                "dflt": 0, "has": None, "req": None, "rest": None, "sett": None}
 
     def concrete(self, obj, with_cache=True):
         pb = obj.formulation.optimization_problem
@@ -588,11 +679,63 @@ class ScenarioAdapter(PlainAdapter):
                 "cache": {}}
 
 
-ADAPTERS = {"disc": DiscAdapter, "function": FunctionAdapter, "space": SpaceAdapter, "problem": ProblemAdapter,
+class GrammarAdapter(DiscAdapter):
+    """A bare grammar (what a discipline exposes and what travels inside every pickled discipline): the edits
+    act on it directly; its observable 'execution' is the validation of the caller's data completed with its
+    defaults (what Discipline.execute does first), returning the completed data."""
+
+    banned = ("Linearize", "SetSetting", "SetCache", "ClearCache")
+
+    def fresh(self):
+        g = self.e.make()
+        self.set_default(g, 0)
+        self.bind_rest(g)
+        return g
+
+    def build(self, kind, f=1):
+        return self.fresh()
+
+    def gram(self, obj):
+        return obj
+
+    def hdf_attachment(self, obj):
+        return None
+
+    def local_point(self, obj):
+        return None
+
+    def execute(self, obj, x, rest=False):
+        data = dict(self.inputs(x, rest))
+        for n in obj.names:
+            if n not in data and n in obj.defaults:
+                data[n] = obj.defaults[n]
+        obj.validate(data)
+        return {n: frozen(data[n]) for n in obj.names if n in data}
+
+    def abstract(self, obj):
+        a = {"kind": "none", "last": None, "nout": 0, "njac": 0, "len": None, "ne": None, "nl": None, "sett": None}
+        a.update(self.abstract_gram(obj))
+        return a
+
+    def concrete(self, obj, with_cache=True):
+        g = self.grammar(obj)
+        g["name"] = obj.name
+        if any(c.__name__ == "JSONGrammar" for c in type(obj).__mro__):
+            g["schema"] = frozen(obj.schema)
+        else:
+            g["types"] = {n: repr(obj[n]) for n in obj.names}
+        return {"gram": g, "sett": {}, "data": {}, "ctr": {}, "cache": {}}
+
+
+ADAPTERS = {"grammar": GrammarAdapter, "disc": DiscAdapter, "function": FunctionAdapter, "space": SpaceAdapter, "problem": ProblemAdapter,
             "scenario": ScenarioAdapter}
 
 
 # ------------------------------------------------------------------ the replayer
+def exc_name(ex):
+    return ex.typ if isinstance(ex, ChildError) else type(ex).__name__
+
+
 class Replayer:
     def __init__(self, ck, adapter, graph, *, config, file_mode, child=None):
         self.ck = ck
@@ -602,44 +745,89 @@ class Replayer:
         self.file_mode = file_mode
         self.child = child
         self.steps = 0
-        self.hdf_last_seen = set()
         self.outside = {}
         self.probes = 0
         self.probe_result = None
         self.probe_points = []
         self.probe_seed = None
         self.pickles = {}
+        self.gen_pickles = {}     # (generation, how, where the pickled object lived -> where it is restored)
+        self.remote_steps = 0     # actions performed in another interpreter
+        self.expected_errors = 0  # calls the specification says are refused, and were
+        self.cur_base = {}
 
     def sig(self, **kw):
         s = {"class": self.ad.e.name, "config": self.config, "grammar": self.ad.gt, "file": self.file_mode}
         s.update(kw)
         return s
 
+    def call(self, obj, method, *args):
+        """Apply a method of the adapter to a world's object, where that object lives."""
+        if isinstance(obj, Remote):
+            return obj.call(method, *args)
+        return getattr(self.ad, method)(obj, *args)
+
     def cleanup(self):
         for f in (1, 2, 3):
             p = self.ad.file_path(f)
             if p.exists():
                 p.unlink()
+        if self.child is not None:
+            self.child.reset()
 
+    # ------------------------------------------------------------------ Pickle, by method and by place
     def pickle_roundtrip(self, obj, how, probe=None):
+        """Returns the restored object (or its Remote) and the name of its class."""
+        path = self.ad.work / "c20_obj.pkl"
+        if isinstance(obj, Remote):
+            c = obj.child
+            if how in ("dumps", "file"):
+                new = Remote(c, obj.cls_name)
+                ans = c.request({"op": "repickle", "src": obj.handle, "dst": new.handle, "how": how, "path": str(path)})
+                if ans["same_object"]:
+                    raise AssertionError("restoring returned the pickled object itself")
+                new.cls_name = ans["class"]
+                return new, "other->other"
+            if how == "spawn":
+                # pickled there, restored here: the object crosses back
+                return pickle.loads(c.request({"op": "dumps", "handle": obj.handle})["blob"]), "other->here"
+            if how == "session":
+                c.request({"op": "save", "handle": obj.handle, "path": str(path)})
+                c2 = self.child.pick(avoid=c)
+                new = Remote(c2, obj.cls_name)
+                new.cls_name = c2.request({"op": "load", "handle": new.handle, "path": str(path), "spec": self.ad.binding()})["class"]
+                self.probe_seed = c2.hash_seed
+                return new, "other->another"
+            raise ValueError(how)
         if how == "dumps":
-            return pickle.loads(pickle.dumps(obj))
+            return pickle.loads(pickle.dumps(obj)), "here->here"
         if how == "file":
             from gemseo.utils.pickle import from_pickle, to_pickle
 
-            path = self.ad.work / "c20_obj.pkl"
             to_pickle(obj, path)
-            return from_pickle(path)
+            return from_pickle(path), "here->here"
         if how == "spawn":
             blob = pickle.dumps(obj)
             ans = self.child.roundtrip(blob, probe)
             self.probe_result = ans.get("probe")
             self.probe_seed = ans.get("hash_seed")
-            return pickle.loads(ans["blob"])
+            return pickle.loads(ans["blob"]), "here->other->here"
+        if how == "session":
+            # a later session / a spawned worker: a fresh interpreter (another string-hash seed) reads the file
+            from gemseo.utils.pickle import to_pickle
+
+            to_pickle(obj, path)
+            c = self.child.pick()
+            new = Remote(c, type(obj).__name__)
+            new.cls_name = c.request({"op": "load", "handle": new.handle, "path": str(path), "spec": self.ad.binding()})["class"]
+            self.probe_seed = c.hash_seed
+            return new, "here->other"
         raise ValueError(how)
 
-    def run(self, path):
-        """Replay one behaviour (a list of edge indices).  Returns False at the first violation."""
+    def run(self, path, hows=None):
+        """Replay one behaviour (a list of edge indices).  `hows`: the method of the successive Pickles (when the
+        graph was dumped for one method only: Pickle(m) is the same step for every m).  Returns False at the
+        first violation."""
         ck, ad, g = self.ck, self.ad, self.g
         self.cleanup()
         init = g.states[g.edges[path[0]][0]]
@@ -648,40 +836,68 @@ class Replayer:
         stale = {"orig": False, "copy": False}   # D11 classification only (see c20.py)
         hist = []
         oplog = {"orig": [], "copy": []}         # the calls each world has seen (for the twin, see below)
+        n_pickle = 0
         try:
             for k in path:
                 src, dst, act, args = g.edges[k]
-                st = g.states[dst]
+                st, pre = g.states[dst], g.states[src]
                 ret = st["ret"]
-                hist.append(act if act != "Pickle" else "Pickle")
+                hist.append(act)
                 self.steps += 1
                 if act == "Pickle":
-                    if not self.do_pickle(objs, st, args[0], hist, stale):
+                    how = hows[n_pickle] if hows and n_pickle < len(hows) else args[0]
+                    n_pickle += 1
+                    if objs["copy"] is not None:
+                        # next generation: the object restored last is the one that is pickled now
+                        objs["orig"], oplog["orig"], stale["orig"] = objs["copy"], oplog["copy"], stale["copy"]
+                        objs["copy"] = None
+                    if not self.do_pickle(objs, st, how, hist, stale):
                         return False
                     oplog["copy"] = list(oplog["orig"])
                     continue
                 w = args[0]
                 o = "copy" if w == "orig" else "orig"
-                oplog[w].append((act, args, st))
-                before = ad.concrete(objs[o], with_cache=self.private_cache(objs, o, w)) if objs[o] is not None else None
+                oplog[w].append((act, args, st, pre))
+                remote = isinstance(objs[w], Remote)
+                same_process = objs[o] is not None and not remote and not isinstance(objs[o], Remote)
+                # (two objects in two processes cannot share memory: nothing to compare)
+                before = ad.concrete(objs[o], with_cache=self.private_cache(objs, o, w)) if same_process else None
                 base = self.sig(step=act, world=w, after_pickle=objs["copy"] is not None, ops=list(hist),
-                                cache=ad.kind(objs[w]))
+                                cache=self.call(objs[w], "kind"), gen=pre["gen"])
+                if remote:
+                    base["interpreter"] = "other"
+                    self.remote_steps += 1
                 if stale[w]:
                     base["stale_index"] = True
+                self.cur_base = base
+                expect_err = bool(ret.get("err"))
+                raised = out = None
                 try:
-                    out = self.do_action(objs[w], w, act, args, st)
+                    out = self.do_action(objs[w], w, act, args, st, pre)
                 except Exception as ex:  # noqa: BLE001
                     import traceback
 
-                    tb = traceback.format_exc(limit=6)
-                    if self.twin_agrees(kind0, oplog[w], ("exc", type(ex).__name__), base):
+                    raised = (ex, traceback.format_exc(limit=6))
+                if expect_err:
+                    # the specification: the required input p has no value, the call is refused, nothing changes
+                    if raised is None:
+                        s = dict(base, what="accepted without a value for a required input")
+                        if self.twin_agrees(kind0, oplog[w], ("val", out), s):
+                            return True
+                        ck.violation("SameBehaviour", s, {"returned": out, "ret": ret,
+                                                           "spec_state": self.world_cells(st, w)})
+                        return False
+                    self.expected_errors += 1
+                elif raised is not None:
+                    ex, tb = raised
+                    if self.twin_agrees(kind0, oplog[w], ("exc", exc_name(ex)), base):
                         return True
-                    ck.violation("SameBehaviour", dict(base, exception=type(ex).__name__),
+                    ck.violation("SameBehaviour", dict(base, exception=exc_name(ex)),
                                  {"exception": repr(ex), "traceback": tb})
                     return False
                 self.track_stale(objs, stale, w, act, ret)
                 # returned values
-                if act in ("Execute", "Linearize"):
+                if act in ("Execute", "Linearize") and not expect_err:
                     pt = tuple(ret["pt"])
                     mem = tuple(tuple(m) for m in ret["mem"])
                     if act == "Execute":
@@ -700,6 +916,8 @@ class Replayer:
                     if objs[ww] is None:
                         continue
                     bad = self.compare_abstract(objs[ww], ww, st)
+                    if bad and bad[0][0] == "last_entry(reported)":
+                        return False
                     if bad:
                         s = dict(base, what=bad[0][0], of=ww)
                         if stale[ww]:
@@ -712,7 +930,7 @@ class Replayer:
                             clause = "LastEntryByValue"
                         else:
                             clause = "NoSharing" if ww != w else "SameBehaviour"
-                        if ww == w and self.twin_agrees(kind0, oplog[w], ("abs", ad.abstract(objs[w])), s):
+                        if ww == w and self.twin_agrees(kind0, oplog[w], ("abs", self.call(objs[w], "abstract")), s):
                             return True
                         ck.violation(clause, s, {"mismatches": bad, "ret": ret, "spec_state": self.world_cells(st, ww)})
                         return False
@@ -742,11 +960,13 @@ class Replayer:
         got = None
         try:
             twin = ad.build(kind0, 3)
-            for i, (act, args, st) in enumerate(ops):
+            for i, (act, args, st, pre) in enumerate(ops):
                 last = i == len(ops) - 1
                 try:
-                    out = self.do_action(twin, "twin", act, args, st)
+                    out = self.do_action(twin, "twin", act, args, st, pre)
                 except Exception as ex:  # noqa: BLE001
+                    if not last and st["ret"].get("err"):
+                        continue   # a call the specification says is refused
                     got = ("exc", type(ex).__name__)
                     if not last:
                         return False
@@ -775,7 +995,7 @@ class Replayer:
     def private_cache(self, objs, o, w):
         """Whether the cache entries of world o are in-memory state (a file's content is compared with the
         specification's `files` after every step instead)."""
-        return self.ad.hdf_attachment(objs[o]) is None
+        return self.call(objs[o], "hdf_attachment") is None
 
     def track_stale(self, objs, stale, w, act, ret):
         """D11 classification: world o's HDF5Cache object is 'stale' once the other world wrote to / cleared
@@ -785,82 +1005,90 @@ class Replayer:
             stale[w] = False
         wrote = (act in ("Execute", "Linearize") and (ret["ran"] or ret["lin"])) or act == "ClearCache"
         if wrote and objs[o] is not None:
-            a, b = self.ad.hdf_attachment(objs[w]), self.ad.hdf_attachment(objs[o])
+            a, b = self.call(objs[w], "hdf_attachment"), self.call(objs[o], "hdf_attachment")
             if a is not None and a == b:
                 stale[o] = True
 
-    def do_action(self, obj, w, act, args, st):
-        ad = self.ad
-        if act == "Execute":
-            return ad.execute(obj, args[1])
-        if act == "Linearize":
-            return ad.linearize(obj, args[1])
+    def do_action(self, obj, w, act, args, st, pre):
+        """`w`: where the object is ("orig" | "copy" | "twin"); args[0]: the world of the specification whose
+        step this is."""
+        if act in ("Execute", "Linearize"):
+            # the caller supplies x and the other inputs the grammar of that world holds no default for
+            cell = pre["gram"][pre["ref"][args[0]]["gram"] - 1]
+            return self.call(obj, "execute" if act == "Execute" else "linearize", args[1], not cell["rest"])
         if act == "SetDefault":
-            return ad.set_default(obj, args[1])
+            return self.call(obj, "set_default", args[1])
+        if act == "DelDefault":
+            return self.call(obj, "del_default")
+        if act == "ClearDefaults":
+            return self.call(obj, "clear_defaults", args[1])
+        if act == "Unrequire":
+            return self.call(obj, "unrequire")
         if act == "SetSetting":
-            return ad.set_setting(obj, st["ret"]["v"])
+            return self.call(obj, "set_setting", st["ret"]["v"])
         if act == "SetCache":
             f = 3 if w == "twin" else (1 if (w == "orig" or self.file_mode == "shared") else 2)
-            return ad.set_cache(obj, args[1], f)
+            return self.call(obj, "set_cache", args[1], f)
         if act == "ClearCache":
-            return ad.clear_cache(obj)
+            return self.call(obj, "clear_cache")
         raise ValueError(act)
 
     def world_cells(self, st, w):
         r = st["ref"][w]
         c = st["cache"][r["cache"] - 1]
         ents = st["files"][c["file"] - 1] if c["kind"] == "hdf" else c
+        gr = st["gram"][r["gram"] - 1]
         return {"kind": c["kind"], "nout": len(ents["outs"]), "njac": len(ents["jacs"]),
                 "ne": st["ctr"][r["ctr"] - 1]["ne"], "nl": st["ctr"][r["ctr"] - 1]["nl"],
-                "dflt": st["gram"][r["gram"] - 1]["dflt"], "sett": st["sett"][r["sett"] - 1],
-                "has": st["data"][r["data"] - 1]["has"], "pt": tuple(st["data"][r["data"] - 1]["pt"]),
+                "dflt": gr["dflt"], "has": gr["has"], "req": gr["req"], "rest": gr["rest"],
+                "sett": st["sett"][r["sett"] - 1],
+                "has_data": st["data"][r["data"] - 1]["has"], "pt": tuple(st["data"][r["data"] - 1]["pt"]),
                 "last": (c["hasLast"], tuple(c["last"]))}
 
     def compare_abstract(self, obj, w, st):
         want = self.world_cells(st, w)
-        got = self.ad.abstract(obj)
-        bad = [(k, got[k], want[k]) for k in ("kind", "ne", "nl", "nout", "njac", "dflt", "sett")
-               if got[k] is not None and got[k] != want[k]]
+        got = self.call(obj, "abstract")
+        bad = [(k, got[k], want[k]) for k in ("kind", "ne", "nl", "nout", "njac", "has", "req", "rest", "sett")
+               if got.get(k) is not None and got[k] != want[k]]
+        if not bad and got.get("has") is not False and want["has"] and got["dflt"] is not None and got["dflt"] != want["dflt"]:
+            bad.append(("dflt", got["dflt"], want["dflt"]))
         if not bad and want["kind"] != "none" and got["len"] is not None and got["len"] != want["nout"]:
             bad.append(("len", got["len"], want["nout"]))
         if not bad and got["last"] is not None and want["kind"] != "none" and got["last"] != want["last"]:
-            if want["kind"] == "hdf" and not HDF_LAST_ENTRY_IS_A_CLAUSE:
-                self.observe_hdf_last(w, got["last"], want["last"])
+            if want["kind"] == "hdf":
+                # HDF5Cache: a cache object (re)attached to a non-empty node - restoring does that - takes the
+                # NEWEST entry as its last entry (HDF5Cache._read_hashes): finding D2003; the behaviour goes on
+                # when the finding is recorded (everything else is still compared)
+                s = dict(self.cur_base, what="last_entry", of=w, cache="hdf")
+                if self.ck.violation("LastEntryByValue", s, {"last_entry_of_the_object": got["last"],
+                                                             "specification": want["last"]}):
+                    bad.append(("last_entry(reported)", got["last"], want["last"]))
             else:
                 bad.append(("last_entry", got["last"], want["last"]))
-        if not bad and want["has"]:
-            lp = self.ad.local_point(obj)
-            if lp is not None and lp != want["pt"]:
+        if not bad and want["has_data"]:
+            lp = self.call(obj, "local_point")
+            if lp is not None and tuple(lp) != want["pt"]:
                 bad.append(("local_data", lp, want["pt"]))
         return bad
-
-    def observe_hdf_last(self, w, got, want):
-        """HDF5Cache: a cache object (re)attached to a non-empty node - restoring does that - takes the NEWEST
-        entry as its last entry, whatever the original's was (HDF5Cache._read_hashes).  Same class of deviation
-        as for the memory cache, but how HDF5Cache is written today: reported as an observation until it is
-        recorded as a finding (set HDF_LAST_ENTRY_IS_A_CLAUSE)."""
-        key = (self.ad.e.name, w)
-        if key in self.hdf_last_seen:
-            return
-        self.hdf_last_seen.add(key)
-        self.ck.observe("LastEntryByValue(hdf)", self.sig(world=w, cache="hdf", what="last_entry"),
-                        {"last_entry_of_the_object": got, "specification": want})
 
     def do_pickle(self, objs, st, how, hist, stale):
         ck, ad = self.ck, self.ad
         orig = objs["orig"]
-        kind = ad.kind(orig)
+        kind = self.call(orig, "kind")
         moment = st["data"][0]["moment"]
-        base = self.sig(step="Pickle", how=how, cache=kind, moment=moment, ops=list(hist))
-        att0 = ad.hdf_attachment(orig)
+        gen = st["gen"]
+        base = self.sig(step="Pickle", how=how, cache=kind, moment=moment, ops=list(hist), gen=gen)
+        self.cur_base = base
+        att0 = self.call(orig, "hdf_attachment")
         if self.file_mode == "snapshot" and ad.file_path(1).exists():
             shutil.copyfile(ad.file_path(1), ad.file_path(2))
         # in the other process the restored object is also executed once (on an instance of its own), unless
         # that could write to the original's file
         probe = None
         self.probe_result = None
-        if how == "spawn" and kind != "hdf":
-            d0 = st["gram"][0]["dflt"]
+        g1 = st["gram"][0]
+        if how == "spawn" and kind != "hdf" and not isinstance(orig, Remote) and g1["has"] and g1["rest"]:
+            d0 = g1["dflt"]
             if ad.e.stateful:
                 pts = [(1, d0)]
             else:
@@ -868,22 +1096,19 @@ class Replayer:
                 # a single-entry cache that came along
                 pts = [(1, d0), (2, 1 - d0 if ad.e.pname is not None else d0)]
             # the binding of the abstract inputs is transported, not recomputed in the other interpreter
-            probe = {"entry": ad.e.name, "grammar": ad.gt, "points": pts,
-                     "binding": {"xname": ad.e.xname, "pname": ad.e.pname, "xvals": ad.e.xvals, "pvals": ad.e.pvals}}
+            probe = dict(ad.binding(), points=pts)
             self.probe_points = pts
         try:
-            copy = self.pickle_roundtrip(orig, how, probe)
+            copy, route = self.pickle_roundtrip(orig, how, probe)
         except Exception as ex:  # noqa: BLE001
             import traceback
 
-            typ = ex.typ if isinstance(ex, ChildError) else type(ex).__name__
-            ck.violation("SameBehaviour", dict(base, exception=typ, what="pickling failed"),
+            ck.violation("SameBehaviour", dict(base, exception=exc_name(ex), what="pickling failed"),
                          {"exception": repr(ex), "traceback": traceback.format_exc(limit=8)})
             return False
         objs["copy"] = copy
         stale["copy"] = False
         if self.probe_result is not None:
-            # SameBehaviour for a = Execute(1), evaluated in the child: the label comes from the cells
             # SameBehaviour for a = Execute(x) (after SetDefault(v)), evaluated in the other interpreter: the
             # labels <<(x, v), mem>> come from the cells of the state
             mem = tuple(tuple(m) for m in st["data"][st["ref"]["copy"]["data"] - 1]["mem"])
@@ -896,37 +1121,46 @@ class Replayer:
                                   "differs_at": diff_keys(got, want, ad.e.tol), "got": got, "expected": want})
                     return False
         self.pickles[(kind, moment, how)] = self.pickles.get((kind, moment, how), 0) + 1
-        if copy is orig or type(copy) is not type(orig):
+        self.gen_pickles[(gen, how, route)] = self.gen_pickles.get((gen, how, route), 0) + 1
+        cls0 = orig.cls_name if isinstance(orig, Remote) else type(orig).__name__
+        cls1 = copy.cls_name if isinstance(copy, Remote) else type(copy).__name__
+        if copy is orig or cls0 != cls1 or (not isinstance(orig, Remote) and not isinstance(copy, Remote)
+                                            and type(copy) is not type(orig)):
             ck.violation("NoSharing", dict(base, what="not a new object of the same class"), {})
             return False
         # a file-backed cache stays attached to its file
         if att0 is not None:
-            att = ad.hdf_attachment(copy)
+            att = self.call(copy, "hdf_attachment")
             if att != att0:
                 ck.violation("StaysAttached", dict(base, what="attachment"), {"original": att0, "copy": att})
                 return False
             if self.file_mode == "snapshot":
-                ad.reattach(copy, 2)
+                self.call(copy, "reattach", 2)
         # SameState: the two worlds are equal right after Pickle (cells of the spec state say so)
-        a, b = ad.concrete(orig), ad.concrete(copy)
-        if kind == "hdf" and not HDF_LAST_ENTRY_IS_A_CLAUSE:
+        a, b = self.call(orig, "concrete"), self.call(copy, "concrete")
+        if kind == "hdf":
             la, lb = a["cache"].pop("last_entry", None), b["cache"].pop("last_entry", None)
             if not same(la, lb):
-                self.observe_hdf_last("copy", lb and lb["in"], la and la["in"])
+                # finding D2003 (see compare_abstract); the behaviour goes on when it is recorded
+                if ck.violation("LastEntryByValue", dict(base, what="last entry of the cache differs after restoring"),
+                                {"original": la and la["in"], "copy": lb and lb["in"]}):
+                    return False
         if not same(a, b):
             d = diff_keys(a, b)
             what = d[0].split(".")[0] if d else "?"
             clause = "CountersByValue" if what == "ctr" else ("StaysAttached" if what == "cache" and kind == "hdf" else "SameBehaviour")
             if d and d[0].startswith("cache.last_entry"):
                 clause, what = "LastEntryByValue", "last entry of the cache"
-            ck.violation(clause, dict(base, what=f"{what} differs after restoring"), {"differs_at": d})
+            ck.violation(clause, dict(base, what=f"{what} differs after restoring"), {"differs_at": d, "route": route})
             return False
         for ww in ("orig", "copy"):
             bad = self.compare_abstract(objs[ww], ww, st)
+            if bad and bad[0][0] == "last_entry(reported)":
+                return False
             if bad:
                 clause = ("CountersByValue" if bad[0][0] in ("ne", "nl")
-                          else "LastEntryByValue" if bad[0][0] == "last_entry" else "SameBehaviour")
+                          else "LastEntryByValue" if bad[0][0].startswith("last_entry") else "SameBehaviour")
                 ck.violation(clause, dict(base, what=bad[0][0], of=ww),
-                             {"mismatches": bad, "spec_state": self.world_cells(st, ww)})
+                             {"mismatches": bad, "spec_state": self.world_cells(st, ww), "route": route})
                 return False
         return True
